@@ -346,6 +346,9 @@ func staleFamily(g *chainGen, r *hx.Rng, tier string, w io.Writer) {
 	}
 	for _, ih := range []uint64{1, 4} {
 		for _, shape := range shapes {
+			if tier != "thorough" && ih != 1 && len(shape) > 0 && shape[1] == 1 {
+				continue // quick: the second initial height only with the shape that has an empty block
+			}
 			total := uint64(len(shape) + 1)
 			for gap := uint64(0); gap+1 < total; gap++ { // the block whose parts arrive only after the clean restart
 				maxKeep := 3 * int(total-gap)
@@ -354,7 +357,7 @@ func staleFamily(g *chainGen, r *hx.Rng, tier string, w io.Writer) {
 						continue
 					}
 					for variant := 0; variant < 3; variant++ {
-						if tier != "thorough" && variant == 2 && keep%4 != 0 {
+						if tier != "thorough" && ((variant == 2 && keep%4 != 0) || (variant == 1 && keep != 4)) {
 							continue
 						}
 						g.reset(ih)
